@@ -7,7 +7,8 @@
 # directories / wrap files, wraps fetch from file:// URLs.
 #
 # (a) decision table: system {absent,1.0,2.0} x constraint {none,>=1.5,>=3} x provider {none, explicit fallback:,
-#     wrap [provide], subproject configured earlier, meson.override_dependency by an earlier subproject} x subproject
+#     wrap [provide], subproject already configured (route {earlier subproject() call, fallback of an earlier lookup of another
+#     name} x named by {fallback:, wrap [provide]}), meson.override_dependency by an earlier subproject} x subproject
 #     version {1.0,2.5} x wrap_mode {default,nofallback,nodownload,forcefallback} x force_fallback_for {[],[dep],[subproject]}
 #     x required x allow_fallback {unset,true,false}.  One cell = one capsule subproject (`subproject(required: false)`)
 #     doing one dependency() lookup on its own dependency name, so an expected-error cell only disables its capsule.
@@ -124,9 +125,25 @@ def fresh_root(tag):
 #  [S4] Subprojects.md nodownload: "Meson will not use the network to download any subprojects ... Only preexisting
 #       sources will be used."
 
+#  [P1] property C10, quantifier: the provider dimension contains "subproject already configured"; anchored mechanism:
+#       "_get_candidates order: cache/override, existing subproject, system (unless forced), configure subproject".  So a
+#       lookup whose fallback subproject is already part of the build takes its dependency from that subproject before the
+#       system is consulted.  Subprojects.md (force-fallback-for, Warning) names what this avoids: "mixing system and
+#       subproject version of the same library in the same process".  The documents do not say by which route the
+#       subproject has to have been configured, so both routes are enumerated: an earlier subproject() call, and an earlier
+#       dependency() of ANOTHER name that fell back to the same subproject [Y4].
+
 SYS = [None, '1.0', '2.0']
 CONS = [None, '>=1.5', '>=3']
-PROV = ['none', 'fallback', 'wrap', 'existing', 'override']
+# provider = how this lookup gets at a subproject (and whether that subproject is already configured when it runs)
+#   existing      wrap [provide] names s<i>;  s<i> configured by an earlier subproject('s<i>')
+#   existing-fb   fallback: ['s<i>', var];    s<i> configured by an earlier subproject('s<i>')
+#   sibling-fb    fallback: ['s<i>', var];    an earlier optional dependency('e<i>', fallback: ['s<i>', ...]) (e<i> is not on the system)
+#   sibling-wrap  wrap [provide] names s<i>;  same earlier lookup of e<i>
+PROV_BASE = ['none', 'fallback', 'wrap', 'existing', 'override']
+PROV_CONFIGURED = {'existing': ('wrap', 'call'), 'existing-fb': ('fallback', 'call'),
+                   'sibling-fb': ('fallback', 'sibling'), 'sibling-wrap': ('wrap', 'sibling')}
+PROV = PROV_BASE + ['existing-fb', 'sibling-fb', 'sibling-wrap']
 SPV = ['1.0', '2.5']
 WM = ['default', 'nofallback', 'nodownload', 'forcefallback']
 FFB = ['none', 'dep', 'sp']
@@ -146,10 +163,20 @@ def satisfies(v, cons):
 
 UNSPEC_REASONS = {
     'U1': 'fallback: together with allow_fallback: (their combination is not described by the documentation)',
-    'U2': 'fallback subproject already configured by an earlier subproject() call and the documents would not use a '
-          'fallback for this call (system satisfies / nofallback / optional with allow_fallback unset): the documentation '
-          'never says what an already-configured subproject means for dependency()',
+    'U2': 'fallback subproject already configured and the documents would not use a fallback for this call (wrap_mode=nofallback: '
+          '"will only look for them in the system"; optional lookup with allow_fallback unset: "will not fallback to the subproject '
+          'defined in the wrap file"), while the candidate order of the property puts a configured subproject first: the two disagree',
+    'U4': 'fallback subproject already configured, its version fails the constraint of this lookup, the system would satisfy it: '
+          'neither the documents nor the property say whether the lookup then fails or goes on to the system',
 }
+
+
+def sibling_configures(spv, wm, ffb):
+    """Pre-state of the sibling-* providers, by the same documented policy: does the earlier optional
+    dependency('e<i>', required: false, fallback: ['s<i>', 'e<i>_dep']) (e<i> absent from the system, force_fallback_for never
+    names e<i>, but may name s<i>) configure s<i>?"""
+    out, _ = decide(None, None, 'fallback', spv, wm, 'sp' if ffb == 'sp' else 'none', False, None)
+    return out[0] == 'subproject'
 
 
 def decide(sysv, cons, prov, spv, wm, ffb, req, af, downloaded=False):
@@ -158,9 +185,14 @@ def decide(sysv, cons, prov, spv, wm, ffb, req, af, downloaded=False):
     fail = ('error',) if req else ('notfound',)
     if prov == 'override':                                                   # [Y1]
         return (('override', spv) if satisfies(spv, cons) else fail), False  # [Y4] version is a requirement
+    configured = False
+    if prov in PROV_CONFIGURED:
+        prov, how = PROV_CONFIGURED[prov]                                    # prov is now how the lookup names its fallback
+        configured = how == 'call' or sibling_configures(spv, wm, ffb)
+        downloaded = True                                                    # these subprojects are directories in the source tree
     if prov == 'fallback' and af is not None:
         return ('unspecified', 'U1'), False
-    has_fb = prov in ('fallback', 'wrap', 'existing') and af is not False    # [Y3] false: never fall back
+    has_fb = prov in ('fallback', 'wrap') and af is not False                # [Y3] false: never fall back
     forced = has_fb and (wm == 'forcefallback' or ffb in ('dep', 'sp'))      # [S2] [S3] ("provided a fallback was supplied")
     if prov == 'fallback':
         allowed = True                                                       # [Y4] [W1] explicit fallback, also if optional
@@ -169,8 +201,14 @@ def decide(sysv, cons, prov, spv, wm, ffb, req, af, downloaded=False):
     if wm == 'nofallback' and not forced:                                    # [S1], [S3] takes precedence
         allowed = False
     sys_ok = satisfies(sysv, cons)
-    if prov == 'existing' and has_fb and not forced and (sys_ok or not allowed):
-        return ('unspecified', 'U2'), False
+    if configured and has_fb and not forced:
+        if not allowed:
+            return ('unspecified', 'U2'), False
+        if satisfies(spv, cons):                                             # [P1] configured subproject before the system
+            return ('subproject', spv), True
+        if sys_ok:
+            return ('unspecified', 'U4'), False
+        return fail, True
     if not forced and sys_ok:                                                # [Y2] system first unless forced
         return ('system', sysv), False
     if has_fb and allowed:
@@ -208,7 +246,7 @@ def lookup_kwargs(i, cons, prov, req, af, native=False):
         kws.append(('required', 'false'))
     if af is not None:
         kws.append(('allow_fallback', 'true' if af else 'false'))
-    if prov == 'fallback':
+    if prov == 'fallback' or PROV_CONFIGURED.get(prov, ('',))[0] == 'fallback':
         kws.append(('fallback', "['s%s', 'd%s_dep']" % (i, i)))
     if native:
         kws.append(('native', 'true'))
@@ -216,7 +254,9 @@ def lookup_kwargs(i, cons, prov, req, af, native=False):
 
 
 def sp_build(i, spv):
-    return "project('s%s', version: '%s')\nd%s_dep = declare_dependency(version: '%s')\n" % (i, spv, i, spv)
+    # d<i>_dep is what the lookup under test falls back to, e<i>_dep what the sibling lookup of the sibling-* providers uses
+    return ("project('s%s', version: '%s')\nd%s_dep = declare_dependency(version: '%s')\ne%s_dep = declare_dependency(version: '%s')\n"
+            % (i, spv, i, spv, i, spv))
 
 
 def cell_files(root, i, cell, files, standalone=False):
@@ -232,15 +272,22 @@ def cell_files(root, i, cell, files, standalone=False):
         files['subprojects/s%s.wrap' % i] = (
             '[wrap-file]\ndirectory = s%s\nsource_url = file://%s/remote/s%s.tar\nsource_filename = s%s.tar\n'
             'source_hash = %s\n\n[provide]\nd%s = d%s_dep\n' % (i, root, i, i, sha(tar), i, i))
-    elif prov == 'existing':
+    elif prov in PROV_CONFIGURED:
         files['subprojects/s%s/meson.build' % i] = sp_build(i, spv)
-        files['subprojects/s%s.wrap' % i] = '[wrap-file]\ndirectory = s%s\n\n[provide]\nd%s = d%s_dep\n' % (i, i, i)
+        if PROV_CONFIGURED[prov][0] == 'wrap':
+            files['subprojects/s%s.wrap' % i] = '[wrap-file]\ndirectory = s%s\n\n[provide]\nd%s = d%s_dep\n' % (i, i, i)
     elif prov == 'override':
         files['subprojects/o%s/meson.build' % i] = (
             "project('o%s', version: '%s')\nmeson.override_dependency('d%s', declare_dependency(version: '%s'))\n" % (i, spv, i, spv))
     body = ["project('c%s')" % i]
-    if prov == 'existing':
+    how = PROV_CONFIGURED.get(prov, (None, None))[1]
+    if how == 'call':
         body.append("subproject('s%s')" % i)
+    elif how == 'sibling':
+        # step 9 = the earlier lookup of ANOTHER name (not on the system) with the same fallback subproject
+        body.append("message('VERIF-PRE|%s|9|')" % i)
+        body.append("e = dependency('e%s', required: false, fallback: ['s%s', 'e%s_dep'])" % (i, i, i))
+        body.append("message('VERIF-RES|%s|9|@0@|@1@|@2@|'.format(e.found(), e.type_name(), e.version()))" % i)
     if prov == 'override':
         body.append("subproject('o%s')" % i)
     body.append("message('VERIF-PRE|%s|0|')" % i)
@@ -311,6 +358,9 @@ def table_batch(job):
     done = 'Message: VERIF-DONE' in r.out
     pre, res = parse_obs(r.out)
     obs = {i: obs_of(pre, res, (str(i), 0)) for i, _ in cells}
+    for i, cell in cells:
+        if PROV_CONFIGURED.get(cell[2], (None, None))[1] == 'sibling':
+            obs[('sibling', i)] = obs_of(pre, res, (str(i), 9))
     shutil.rmtree(root, ignore_errors=True)
     return done, r.rc, r.unhandled, obs, ('' if done else r.out[-1200:])
 
@@ -370,6 +420,8 @@ def part_table(ck, classes):
     compared = 0
     exp_hist = {}
     unspec_obs = {}
+    conf = {p: {'compared': 0, 'configured_when_looked_up': 0, 'expected_subproject_although_system_satisfies': 0,
+                'expected_system_or_failure': 0} for p in PROV_CONFIGURED}
     aborted = 0
     rounds = 0
     while queue and rounds < 12:
@@ -393,12 +445,34 @@ def part_table(ck, classes):
                 sysv, cons, prov, spv, req, af = cell
                 out, _ = decide(sysv, cons, prov, spv, wm, ffb, req, af)
                 o = obs[i]
+                how = PROV_CONFIGURED.get(prov, (None, None))[1]
+                is_conf = how == 'call'
+                if how == 'sibling':
+                    # the pre-state itself is an ordinary `fallback:` cell; if it is not what the policy gives, say so and do
+                    # not judge the lookup that depends on it
+                    is_conf = sibling_configures(spv, wm, ffb)
+                    sexp = ('internal', spv) if is_conf else ('notfound',)
+                    if obs.get(('sibling', i)) != sexp:
+                        ck.violation('C10:table:%s:sibling-prestate:exp-%s:got-%s' % (prov, sexp[0], obs.get(('sibling', i), ('?',))[0]),
+                                     'cell %s: the earlier optional dependency(e, fallback: [s, e_dep]) of a name absent from the system '
+                                     'should give %s, meson gives %s' % (cell_dict(wm, ffb, cell), sexp, obs.get(('sibling', i))),
+                                     {'part': 'table', 'wrap_mode': wm, 'force_fallback_for': ffb, 'cell': list(cell),
+                                      'expected': list(sexp), 'observed': list(obs.get(('sibling', i), ()))})
+                        continue
                 if out[0] == 'unspecified':
                     k = '%s:%s' % (out[1], o[0])
                     unspec_obs[k] = unspec_obs.get(k, 0) + 1
                     continue
                 exp = expected_obs(out)
                 compared += 1
+                if prov in conf:
+                    cf = conf[prov]
+                    cf['compared'] += 1
+                    cf['configured_when_looked_up'] += is_conf
+                    if is_conf and out[0] == 'subproject' and satisfies(sysv, cons) and wm != 'forcefallback' and ffb == 'none':
+                        cf['expected_subproject_although_system_satisfies'] += 1
+                    if out[0] != 'subproject':
+                        cf['expected_system_or_failure'] += 1
                 exp_hist[out[0]] = exp_hist.get(out[0], 0) + 1
                 classes.add(('table', out[0], prov if out[0] in ('error', 'notfound') else ''))
                 if o != exp:
@@ -444,6 +518,17 @@ def part_table(ck, classes):
             setups=setups, aborted_batches=aborted, expected_outcomes=exp_hist, observed_in_unspecified=unspec_obs,
             standalone_revalidated=len(sl), standalone_cold=len([1 for j in sjobs if j[3]]), standalone_expected_errors=s_err,
             subproject_versions=spvs)
+    # the "subproject already configured" family: by route of configuration x way the lookup names its fallback
+    ck.part('configured_subproject', routes={p: '%s names the fallback, configured by %s' % (
+        'fallback:' if v[0] == 'fallback' else 'wrap [provide]',
+        "an earlier subproject() call" if v[1] == 'call' else 'the fallback of an earlier lookup of another name') for p, v in PROV_CONFIGURED.items()},
+        **{p.replace('-', '_'): v for p, v in conf.items()})
+    for p, v in conf.items():
+        ck.require(v['expected_subproject_although_system_satisfies'] >= 5,
+                   'provider %s: no cell where the configured subproject is expected although the system satisfies the request' % p)
+        ck.require(v['expected_system_or_failure'] >= 5, 'provider %s: the configured subproject is always expected' % p)
+        ck.require(v['configured_when_looked_up'] < v['compared'] or PROV_CONFIGURED[p][1] == 'call',
+                   'provider %s: the sibling lookup always configures the subproject' % p)
     for k in ('system', 'subproject', 'override', 'notfound', 'error'):
         ck.require(exp_hist.get(k, 0) > 20, 'decision table never expects outcome %s' % k)
     ck.require(compared > 1000, 'decision table compared too little')
@@ -484,7 +569,7 @@ def hist_batch(job):
 
 
 def part_hist(ck, classes):
-    cells = list(itertools.product(SYS, CONS, PROV, ['2.5'], REQ, AF))
+    cells = list(itertools.product(SYS, CONS, PROV if ck.thorough else PROV_BASE, ['2.5'], REQ, AF))
     settings = [(wm, ffb) for wm in WM for ffb in FFB]
     base = ('default', 'none')
     if ck.thorough:
@@ -1298,6 +1383,8 @@ def replay(ck):
         print('cell     :', cell_dict(wm, ffb, cell))
         print('expected :', out)
         print('observed : in a capsule %s ; stand-alone %s exit %d' % (obs.get(0), o, src))
+        if ('sibling', 0) in obs:
+            print('sibling  : the earlier lookup of the other name gave', obs[('sibling', 0)])
         if out[0] == 'unspecified':
             sys.exit(0)
         exp = expected_obs(out)
@@ -1394,6 +1481,8 @@ def main():
         ck.part('shared_archive_name', wall_s=round(time.time() - t0, 1))
         evals += n
         runs += r
+    if os.environ.get('VERIF_C10_PARTS'):
+        print(json.dumps(ck.parts, indent=1, sort_keys=True, default=repr), file=sys.stderr)
     ck.assume('the decision function and the acquisition expectations are my transcription of docs/yaml/functions/dependency.yaml, '
               'Subprojects.md and Wrap-dependency-system-manual.md (sentences quoted in checks/c10.py)')
     ck.assume('system dependencies are pkg-config files (pkg-config 1.8.1 on PATH) in a private PKG_CONFIG_LIBDIR; projects have no language, --backend=none')
@@ -1401,8 +1490,8 @@ def main():
     ck.assume('part (c) is fault enumeration over a fixed list of corruption classes and step failures, not a proof over all faults')
     ck.assume('unspecified corners (skipped, counted): ' + '; '.join('%s: %s' % kv for kv in sorted({**UNSPEC_REASONS, **ACQ_UNSPEC}.items())))
     ck.finish(evaluations=evals, distinct_nontrivial=len(classes), skipped_unspecified=skipped, meson_runs=runs,
-              rule='(a) every cell of system{absent,1.0,2.0} x constraint{none,>=1.5,>=3} x provider{none,fallback:,wrap [provide],configured earlier,'
-                   'override_dependency} x subproject version%s x wrap_mode{default,nofallback,nodownload,forcefallback} x force_fallback_for{[],[dep],[subproject]} '
+              rule='(a) every cell of system{absent,1.0,2.0} x constraint{none,>=1.5,>=3} x provider{none,fallback:,wrap [provide],subproject already configured {by subproject(), as the fallback of an earlier lookup of another name} '
+                   'x {named by fallback:, by wrap [provide]},override_dependency} x subproject version%s x wrap_mode{default,nofallback,nodownload,forcefallback} x force_fallback_for{[],[dep],[subproject]} '
                    'x required x allow_fallback{unset,true,false}, one real dependency() per cell in its own capsule subproject, compared with the documented '
                    'decision function; a slice re-run as stand-alone projects (exit status; half of them in a cold process); the table again after '
                    'the build directory was first configured under another (wrap_mode, force_fallback_for) pair (quick: to and from the default pair; thorough: all 132 ordered pairs). '
